@@ -450,3 +450,91 @@ def _evidence(prop, tier, seed, eng, desc, tot, shapes, states, orders, samples,
         "wall_s": round(wall, 2),
         "violations": len(reported),
     }
+
+
+# ---------------------------------------------------------------------------
+# reach: which lines of the code under test a sample of runs actually executes
+
+
+def _executable_lines(path):
+    """line numbers inside function bodies (module and class bodies run at import
+    only; the def line itself is not counted)"""
+    import types
+
+    try:
+        with open(path) as f:
+            code = compile(f.read(), path, "exec")
+    except Exception:
+        return set()
+    out = set()
+    stack = [(code, False)]
+    while stack:
+        c, is_fn = stack.pop()
+        if is_fn:
+            for _, _, ln in c.co_lines():
+                if ln is not None and ln != c.co_firstlineno:
+                    out.add(ln)
+        for k in c.co_consts:
+            if isinstance(k, types.CodeType):
+                # a class body is a code object too, but it is not a function: its name is the class name and
+                # it is run once at import; treat code objects whose flags lack CO_OPTIMIZED as non-functions
+                stack.append((k, bool(k.co_flags & 0x1)))
+    return out
+
+
+def _reach_child(prop, tier, seed, n):
+    import random
+    import sys as _sys
+
+    eng = load_engine(prop)
+    eng.preload(prop)
+    root = os.path.join(kernel.REPO, "mingus") + os.sep
+    hit = {}
+
+    def tracer(frame, event, arg):
+        fn = frame.f_code.co_filename
+        if not fn.startswith(root):
+            return None
+        if event == "line":
+            hit.setdefault(fn, set()).add(frame.f_lineno)
+        return tracer
+
+    _sys.settrace(tracer)
+    try:
+        for i in range(n):
+            rs = kernel.run_seed(seed, eng.ENGINE_ID, int(prop[1:]), i)
+            program = eng.generate(random.Random(rs), prop, tier)
+            try:
+                eng.execute(prop, program)
+            except BaseException:
+                pass
+    finally:
+        _sys.settrace(None)
+    out = {}
+    for fn, lines in hit.items():
+        ex = _executable_lines(fn)
+        rel = os.path.relpath(fn, kernel.REPO)
+        out[rel] = {"lines_executed": len(lines & ex) if ex else len(lines), "executable_lines": len(ex)}
+    return out
+
+
+def reach(prop, n=300, seed=0):
+    """Runs a sample of runs in ONE child under a line tracer (no per-run isolation:
+    this is a reach measurement, never a verdict)."""
+    eng = load_engine(prop)
+    if hasattr(eng, "prepare_main"):
+        eng.prepare_main(prop, 8)
+    r = forked(_reach_child, (prop, "quick", seed, n), alarm=1800)
+    if "harness_error" in r:
+        print(r["harness_error"])
+        return 2
+    print("reach of %d sampled runs of %s into the code under test (lines executed inside calls / executable lines):" % (n, prop))
+    for fn in sorted(r):
+        v = r[fn]
+        print("  %-44s %4d / %4d" % (fn, v["lines_executed"], v["executable_lines"]))
+    d = os.path.join(kernel.VERIF, "reach")
+    os.makedirs(d, exist_ok=True)
+    path = os.path.join(d, "%s.json" % prop)
+    with open(path, "w") as f:
+        json.dump({"property_id": prop, "sampled_runs": n, "seed": seed, "files": r, "note": "line reach of a sample of runs executed in one process under sys.settrace; a reach measurement, not a verdict"}, f, indent=1, sort_keys=True)
+    return 0
